@@ -22,7 +22,10 @@ fn main() {
     let repeat = a.u64("repeat", 20);
     let seeds: Vec<u64> = if let Some(s) = a.get("replay") { std::iter::repeat(s.parse().expect("seed")).take(repeat as usize).collect() } else { (start..start + count).map(|i| splitmix(base, i)).collect() };
     for seed in seeds {
-        let sc = gen_thread(seed, small);
+        let mut sc = gen_thread(seed, small);
+        if let Some(n) = a.get("pings") {
+            sc.pings = n.parse().expect("pings");
+        }
         let desc = sc.to_json();
         let on_deadlock: OnDeadlock = {
             let (shard, desc) = (shard.clone(), desc.clone());
